@@ -427,8 +427,18 @@ example :
     st.pend = [] ∧ st.closing = [] ∧ (st.objs.filter (·.isOpen)).length = 2 ∧
     (st.sess 0).objs (.pub .video) = some 1 ∧ (st.sess 0).objs (.sub 1 .video) = some 2 := by decide
 
-example : Reachable Cfg.repaired (run Cfg.repaired State.init [.join 0 1, .offerBegin 0 .video av, .createEnd 1 .ok]) :=
-  ⟨_, rfl⟩
+/-- … and formally: a reachable, quiescent state with an open object (the hypotheses of
+`C09_no_orphan` and `C09_single_publisher_code` are jointly satisfiable). -/
+example :
+    let st := run Cfg.repaired State.init [.join 0 1, .offerBegin 0 .video av, .createEnd 1 .ok]
+    Reachable Cfg.repaired st ∧ Quiescent st ∧ ∃ o ∈ st.objs, o.isOpen = true := by
+  refine ⟨⟨_, rfl⟩, ⟨by decide, by decide, ?_⟩, ?_⟩
+  · intro i
+    by_cases h : i = 0
+    · subst h; decide
+    · simp [run, step, State.upd, beginCreate, createEndOk, findPend, recheckOk, Cfg.repaired, State.init,
+        Sess.init, h, permittedPub, C09_code_oldstyle, av]
+  · exact ⟨{ id := 1, owner := 0, kind := .pub .video, media := av, stamp := 0, isOpen := true }, by decide, rfl⟩
 
 /-- The race of `C09_single_publisher`: two offers for the same stream, both created;
 the second answer loses and is closed, one publisher remains. -/
